@@ -116,6 +116,7 @@ func (c *wsConn) nextMessage() {
 	c.resetReadDeadline()
 	msgType, r, err := c.conn.NextReader()
 	if err != nil {
+		vhook("reader.err", c)
 		c.errLk.Lock()
 		c.incomingErr = err
 		c.errLk.Unlock()
@@ -123,12 +124,14 @@ func (c *wsConn) nextMessage() {
 		return
 	}
 	if msgType != websocket.BinaryMessage && msgType != websocket.TextMessage {
+		vhook("reader.err", c)
 		c.errLk.Lock()
 		c.incomingErr = errors.New("unsupported message type")
 		c.errLk.Unlock()
 		close(c.incoming)
 		return
 	}
+	vhook("reader.msg", c)
 	c.incoming <- r
 }
 
@@ -137,6 +140,8 @@ func (c *wsConn) nextMessage() {
 func (c *wsConn) nextWriter(cb func(io.Writer)) {
 	c.writeLk.Lock()
 	defer c.writeLk.Unlock()
+	vhook("w.begin", c, "site", "nextWriter")
+	defer vhook("w.end", c, "site", "nextWriter")
 
 	wcl, err := c.conn.NextWriter(websocket.TextMessage)
 	if err != nil {
@@ -155,6 +160,8 @@ func (c *wsConn) nextWriter(cb func(io.Writer)) {
 func (c *wsConn) sendRequest(req request) error {
 	c.writeLk.Lock()
 	defer c.writeLk.Unlock()
+	vhook("w.begin", c, "site", "sendRequest", "method", req.Method, "id", req.ID)
+	defer vhook("w.end", c, "site", "sendRequest")
 
 	if debugTrace {
 		log.Debugw("sendRequest", "req", req.Method, "id", req.ID)
@@ -202,6 +209,7 @@ func (c *wsConn) handleOutChans() {
 			}
 
 			registration := val.Interface().(outChanReg)
+			vhook("fwd.reg", c, "ch", registration.chID, "id", registration.reqID)
 
 			caseToID = append(caseToID, registration.chID)
 			cases = append(cases, reflect.SelectCase{
@@ -240,6 +248,7 @@ func (c *wsConn) handleOutChans() {
 			// Output channel closed, cleanup, and tell remote that this happened
 
 			id := caseToID[chosen-internal]
+			vhook("fwd.close", c, "ch", id)
 
 			n := len(cases) - 1
 			if n > 0 {
@@ -267,6 +276,7 @@ func (c *wsConn) handleOutChans() {
 			continue
 		}
 
+		vhook("fwd.val", c, "ch", caseToID[chosen-internal])
 		// forward message
 		rp, err := json.Marshal([]param{{v: reflect.ValueOf(caseToID[chosen-internal])}, {v: val}})
 		if err != nil {
@@ -319,6 +329,7 @@ func (c *wsConn) handleChanOut(ch reflect.Value, req interface{}) error {
 //	contexts correctly (cancelling when async functions are no longer is use)
 func (c *wsConn) handleCtxAsync(actx context.Context, id interface{}) {
 	<-actx.Done()
+	vhook("ctxw.fire", c, "id", id)
 
 	rp, err := json.Marshal([]param{{v: reflect.ValueOf(id)}})
 	if err != nil {
@@ -370,6 +381,7 @@ func (c *wsConn) cancelCtx(req frame) {
 	defer c.handlingLk.Unlock()
 
 	cf, ok := c.handling[id]
+	vhook("fe.cancel", c, "id", id, "found", ok)
 	if ok {
 		cf()
 	}
@@ -399,6 +411,7 @@ func (c *wsConn) handleChanMessage(frame frame) {
 
 	c.chanHandlersLk.Lock()
 	hnd, ok := c.chanHandlers[chid]
+	vhook("fe.chval", c, "ch", chid, "found", ok)
 	if !ok {
 		c.chanHandlersLk.Unlock()
 		log.Errorf("xrpc.ch.val: handler %d not found", chid)
@@ -433,6 +446,7 @@ func (c *wsConn) handleChanClose(frame frame) {
 
 	c.chanHandlersLk.Lock()
 	hnd, ok := c.chanHandlers[chid]
+	vhook("fe.chclose", c, "ch", chid, "found", ok)
 	if !ok {
 		c.chanHandlersLk.Unlock()
 		log.Errorf("xrpc.ch.val: handler %d not found", chid)
@@ -453,6 +467,7 @@ func (c *wsConn) handleResponse(frame frame) {
 	c.inflightLk.Lock()
 	req, ok := c.inflight[frame.ID]
 	c.inflightLk.Unlock()
+	vhook("fe.resp.lookup", c, "id", frame.ID, "found", ok)
 	if !ok {
 		log.Error("client got unknown ID in response")
 		return
@@ -470,11 +485,13 @@ func (c *wsConn) handleResponse(frame frame) {
 
 		c.chanHandlersLk.Lock()
 		c.chanHandlers[chid] = &chanHandler{cb: chHnd}
+		vhook("fe.resp.chanreg", c, "ch", chid, "id", frame.ID)
 		c.chanHandlersLk.Unlock()
 
 		go c.handleCtxAsync(chanCtx, frame.ID)
 	}
 
+	vhook("fe.resp.deliver", c, "id", frame.ID, "a", req.ready)
 	req.ready <- clientResponse{
 		Jsonrpc: frame.Jsonrpc,
 		Result:  frame.Result,
@@ -484,6 +501,7 @@ func (c *wsConn) handleResponse(frame frame) {
 	c.inflightLk.Lock()
 	delete(c.inflight, frame.ID)
 	c.inflightLk.Unlock()
+	vhook("fe.resp.delete", c, "id", frame.ID)
 }
 
 func (c *wsConn) handleCall(ctx context.Context, frame frame) {
@@ -520,6 +538,7 @@ func (c *wsConn) handleCall(ctx context.Context, frame frame) {
 		done = func(keepctx bool) {
 			c.handlingLk.Lock()
 			defer c.handlingLk.Unlock()
+			vhook("h.done", c, "id", frame.ID, "keep", keepctx)
 
 			if !keepctx {
 				cancel()
@@ -528,6 +547,7 @@ func (c *wsConn) handleCall(ctx context.Context, frame frame) {
 		}
 	}
 
+	vhook("fe.call", c, "id", frame.ID, "method", frame.Method)
 	go c.handler.handle(ctx, req, nextWriter, rpcError, done, c.handleChanOut)
 }
 
@@ -554,6 +574,7 @@ func (c *wsConn) handleFrame(ctx context.Context, frame frame) {
 func (c *wsConn) closeInFlight() {
 	c.inflightLk.Lock()
 	for id, req := range c.inflight {
+		vhook("cif.send", c, "id", id, "a", req.ready)
 		req.ready <- clientResponse{
 			Jsonrpc: "2.0",
 			ID:      id,
@@ -564,14 +585,17 @@ func (c *wsConn) closeInFlight() {
 		}
 	}
 	c.inflight = map[interface{}]clientRequest{}
+	vhook("cif.clear", c)
 	c.inflightLk.Unlock()
 
 	c.handlingLk.Lock()
 	for _, cancel := range c.handling {
+		vhook("cif.cancel", c)
 		cancel()
 	}
 	c.handling = map[interface{}]context.CancelFunc{}
 	c.handlingLk.Unlock()
+	vhook("cif.done", c)
 
 }
 
@@ -585,6 +609,7 @@ func (c *wsConn) closeChans() {
 		hnd.lk.Lock()
 
 		delete(c.chanHandlers, chid)
+		vhook("cc.close", c, "ch", chid)
 
 		c.chanHandlersLk.Unlock()
 
@@ -623,9 +648,11 @@ func (c *wsConn) setupPings() func() {
 			select {
 			case <-time.After(c.pingInterval):
 				c.writeLk.Lock()
+				vhook("w.begin", c, "site", "ping")
 				if err := c.conn.WriteMessage(websocket.PingMessage, []byte{}); err != nil {
 					log.Errorf("sending ping message: %+v", err)
 				}
+				vhook("w.end", c, "site", "ping")
 				c.writeLk.Unlock()
 			case <-stop:
 				return
@@ -648,9 +675,11 @@ func (c *wsConn) tryReconnect(ctx context.Context) bool {
 	}
 
 	// connection dropped unexpectedly, do our best to recover it
+	vhook("reconn.begin", c)
 	c.closeInFlight()
 	c.closeChans()
 	c.incoming = make(chan io.Reader) // listen again for responses
+	vhook("reconn.spawn", c)
 	go func() {
 		c.stopPings()
 
@@ -659,14 +688,17 @@ func (c *wsConn) tryReconnect(ctx context.Context) bool {
 		for conn == nil {
 			time.Sleep(c.reconnectBackoff.next(attempts))
 			if ctx.Err() != nil {
+				vhook("rc.abort", c)
 				return
 			}
+			vhook("rc.dial", c, "attempt", attempts)
 			var err error
 			if conn, err = c.connFactory(); err != nil {
 				log.Debugw("websocket connection retry failed", "error", err)
 			}
 			select {
 			case <-ctx.Done():
+				vhook("rc.abort", c)
 				return
 			default:
 			}
@@ -674,6 +706,7 @@ func (c *wsConn) tryReconnect(ctx context.Context) bool {
 		}
 
 		c.writeLk.Lock()
+		vhook("w.begin", c, "site", "swap")
 		c.conn = conn
 		c.errLk.Lock()
 		c.incomingErr = nil
@@ -681,6 +714,8 @@ func (c *wsConn) tryReconnect(ctx context.Context) bool {
 
 		c.stopPings = c.setupPings()
 
+		vhook("rc.swap", c)
+		vhook("w.end", c, "site", "swap")
 		c.writeLk.Unlock()
 
 		go c.nextMessage()
@@ -698,10 +733,12 @@ func (c *wsConn) readFrame(ctx context.Context, r io.Reader) {
 	// use a autoResetReader in case the read takes a long time
 	buf, err := io.ReadAll(c.autoResetReader(r)) // todo buffer pool
 	if err != nil {
+		vhook("reader.readerr", c)
 		c.readError <- xerrors.Errorf("reading frame into a buffer: %w", err)
 		return
 	}
 
+	vhook("reader.queue", c)
 	c.frameExecQueue <- buf
 	if len(c.frameExecQueue) > 2*cap(c.frameExecQueue)/3 { // warn at 2/3 capacity
 		log.Warnw("frame executor queue is backlogged", "queued", len(c.frameExecQueue), "cap", cap(c.frameExecQueue))
@@ -752,6 +789,7 @@ func (c *wsConn) handleWsConn(ctx context.Context) {
 	c.pongs = make(chan struct{}, 1)
 
 	c.registerCh = make(chan outChanReg)
+	defer vhook("main.exited", c)
 	defer close(c.exiting)
 
 	// ////
@@ -774,6 +812,8 @@ func (c *wsConn) handleWsConn(ctx context.Context) {
 
 	// start frame executor
 	go c.frameExecutor(ctx)
+
+	defer vhook("main.exit.begin", c)
 
 	// wait for the first message
 	go c.nextMessage()
@@ -800,6 +840,7 @@ func (c *wsConn) handleWsConn(ctx context.Context) {
 			c.errLk.Lock()
 			err := c.incomingErr
 			c.errLk.Unlock()
+			vhook("main.incoming", c, "ok", ok, "err", err != nil)
 
 			if ok {
 				go c.readFrame(ctx, r)
@@ -817,23 +858,28 @@ func (c *wsConn) handleWsConn(ctx context.Context) {
 			}
 		case rerr := <-c.readError:
 			action = "read-error"
+			vhook("main.readerror", c)
 
 			log.Debugw("websocket error", "error", rerr, "lastAction", action, "time", time.Since(start))
 			if !c.tryReconnect(ctx) {
 				return // failed to reconnect
 			}
 		case <-ctx.Done():
+			vhook("main.ctxdone", c)
 			log.Debugw("context cancelled", "error", ctx.Err(), "lastAction", action, "time", time.Since(start))
 			return
 		case req := <-c.requests:
 			action = fmt.Sprintf("send-request(%s,%v)", req.req.Method, req.req.ID)
+			vhook("main.take", c, "a", req.ready, "id", req.req.ID, "method", req.req.Method)
 
 			c.writeLk.Lock()
+			vhook("w.begin", c, "site", "register")
 			if req.req.ID != nil { // non-notification
 				c.errLk.Lock()
 				hasErr := c.incomingErr != nil
 				c.errLk.Unlock()
 				if hasErr { // No conn?, immediate fail
+					vhook("main.failfast", c, "a", req.ready, "id", req.req.ID)
 					req.ready <- clientResponse{
 						Jsonrpc: "2.0",
 						ID:      req.req.ID,
@@ -842,15 +888,19 @@ func (c *wsConn) handleWsConn(ctx context.Context) {
 							Code:    eTempWSError,
 						},
 					}
+					vhook("w.end", c, "site", "register")
 					c.writeLk.Unlock()
 					break
 				}
 				c.inflightLk.Lock()
 				c.inflight[req.req.ID] = req
 				c.inflightLk.Unlock()
+				vhook("main.register", c, "a", req.ready, "id", req.req.ID)
 			}
+			vhook("w.end", c, "site", "register")
 			c.writeLk.Unlock()
 			serr := c.sendRequest(req.req)
+			vhook("main.wrote", c, "a", req.ready, "id", req.req.ID, "ok", serr == nil)
 			if serr != nil {
 				log.Errorf("sendReqest failed (Handle me): %s", serr)
 			}
@@ -864,11 +914,13 @@ func (c *wsConn) handleWsConn(ctx context.Context) {
 						Message: fmt.Sprintf("sendRequest: %s", serr),
 					}
 				}
+				vhook("main.notifreply", c, "a", req.ready)
 				req.ready <- resp
 			}
 
 		case <-c.pongs:
 			action = "pong"
+			vhook("main.pong", c)
 
 			c.resetReadDeadline()
 		case <-timeoutCh:
@@ -877,10 +929,13 @@ func (c *wsConn) handleWsConn(ctx context.Context) {
 				continue
 			}
 
+			vhook("main.timeout", c)
 			c.writeLk.Lock()
+			vhook("w.begin", c, "site", "timeoutClose")
 			if err := c.conn.Close(); err != nil {
 				log.Warnw("timed-out websocket close error", "error", err)
 			}
+			vhook("w.end", c, "site", "timeoutClose")
 			c.writeLk.Unlock()
 			log.Errorw("Connection timeout", "remote", c.conn.RemoteAddr(), "lastAction", action)
 			// The server side does not perform the reconnect operation, so need to exit
@@ -890,7 +945,9 @@ func (c *wsConn) handleWsConn(ctx context.Context) {
 			// The client performs the reconnect operation, and if it exits it cannot start a handleWsConn again, so it does not need to exit
 			continue
 		case <-c.stop:
+			vhook("main.stop", c)
 			c.writeLk.Lock()
+			vhook("w.begin", c, "site", "stopClose")
 			cmsg := websocket.FormatCloseMessage(websocket.CloseNormalClosure, "")
 			if err := c.conn.WriteMessage(websocket.CloseMessage, cmsg); err != nil {
 				log.Warn("failed to write close message: ", err)
@@ -898,6 +955,7 @@ func (c *wsConn) handleWsConn(ctx context.Context) {
 			if err := c.conn.Close(); err != nil {
 				log.Warnw("websocket close error", "error", err)
 			}
+			vhook("w.end", c, "site", "stopClose")
 			c.writeLk.Unlock()
 			return
 		}
@@ -943,6 +1001,7 @@ func (r *deadlineResetReader) Read(p []byte) (n int, err error) {
 
 func (c *wsConn) resetReadDeadline() {
 	if c.timeout > 0 {
+		vhook("deadline.reset", c)
 		if err := c.conn.SetReadDeadline(time.Now().Add(c.timeout)); err != nil {
 			log.Error("setting read deadline", err)
 		}
